@@ -62,6 +62,13 @@ def gen(tier, seed):
         cmds = ["ls_vec %d %s" % (w, " ".join("0x%x" % v for v in vs))]
         cmds += ["ls_get %d" % p for p in range(n)] + ["ls_dump", "ls_reload"] + ["ls_get %d" % p for p in range(n)]
         cases.append(Case("lv%d" % w, cmds, {"kind": "logvec", "w": w, "n": n, "vs": vs}))
+    return cases
+
+
+def gen_dac_cases(tier, seed):
+    """the original DAC_VLS cases of this module; replayed (with an extended command list) by gen_dac"""
+    rnd = random.Random(seed * 7919 + 18)
+    cases = []
     # ---- DAC_VLS
     nd = 60 if tier == "quick" else 600
     for k in range(nd):
@@ -91,7 +98,7 @@ def gen(tier, seed):
     return cases
 
 
-def evaluate_property(run, case, out):
+def evaluate_property(case, out):
     """The property itself, evaluated on the implementation's output (independent of the model)."""
     lines = out["lines"]
     m = case.meta
@@ -169,75 +176,15 @@ def evaluate_property(run, case, out):
 
 
 def check(run, tier, seed, replay):
-    run.rule = ("VByte: every byte-count boundary + random 32-bit values; LogSequence: every width 1..64 x lengths "
-                "around word multiples x set/overwrite sequences, vector constructor, save/load; DAC_VLS: structured "
-                "sequence lists (all length 1, all maximal, last of length 1 / maximal). Non-trivial = case executes "
-                "at least one store+load; distinct = by (kind, parameters, operations).")
-    run.assumptions = ["x86-64 shift-count masking where the C++ shifts by the word width (modelled explicitly)",
-                       "the DAC model abstracts the 32-bit get_field/set_field packing of the level array and the RG rank (both compared at layout level through dac_dump)"]
-    proof_ok, r = vlib.proof_side(run, "C17")
-    ok, msg = vlib.build_oracle()
-    run.oblige("extracted oracle builds", ok, msg)
-    exe, msg = vlib.build_driver("asan")
-    run.oblige("implementation + driver build from /repo working tree (ASan, -D%s)" % vlib.GUARD, exe is not None, msg)
-    if exe is None or not ok:
-        run.violation("build failed", {"kind": "build", "operation": "build", "detail": msg}, found_input=False)
-        return
-    if replay:
-        import json
-        rp = json.load(open(replay))
-        cases = [Case(rp["case"]["name"], rp["case"]["cmds"], rp["case"]["meta"])]
-    else:
-        cases = gen(tier, seed)
-    impl = vlib.run_cases(exe, cases, tag="impl")
-    model = vlib.run_cases(vlib.OCAML + "/oracle", cases, tag="model")
-    ndis = 0
-    first_dis = None
-    kinds = {}
-    for c in cases:
-        io = impl.get(c.name, {"lines": [], "status": "missing", "err": []})
-        mo = model.get(c.name, {"lines": [], "status": "missing", "err": []})
-        kinds[c.meta["kind"]] = kinds.get(c.meta["kind"], 0) + 1
-        run.count((c.meta["kind"], c.cmds))
-        # correspondence (layout + API): every line the model answers must agree
-        dis = []
-        for k, ml in enumerate(mo["lines"]):
-            if ml.startswith("SKIP "):
-                continue
-            il = io["lines"][k] if k < len(io["lines"]) else "<missing>"
-            if il != ml:
-                dis.append({"cmd": c.cmds[k] if k < len(c.cmds) else "?", "impl": il, "model": ml})
-        fails = evaluate_property(run, c, io)
-        if replay:
-            print("impl :", io)
-            print("model:", mo)
-        if fails:
-            run.violation(fails[0], {"kind": c.meta["kind"], "operation": "roundtrip", "failures": fails[:10],
-                                     "case": {"name": c.name, "cmds": c.cmds, "meta": c.meta},
-                                     "impl_status": io["status"], "impl_err": io["err"][:6]},
-                          found_input=True, classes=())
-        if dis:
-            ndis += 1
-            if first_dis is None:
-                first_dis = (c, dis)
-    run.sample({"case": cases[0].name, "cmds": cases[0].cmds[:6]})
-    for c in cases:
-        if c.meta["kind"] == "logseq" and c.meta["w"] == 37:
-            run.sample({"case": c.name, "cmds": c.cmds[:5], "w": 37, "n": c.meta["n"]})
-            break
-    for c in cases:
-        if c.meta["kind"] == "dac":
-            run.sample({"case": c.name, "cmd": c.cmds[0][:200], "shape": c.meta["shape"]})
-            break
-    run.extra["input_distribution"] = kinds
-    run.extra["correspondence_disagreements"] = ndis
-    run.oblige("correspondence: model and implementation agree on every command of every case", ndis == 0,
-               "" if not first_dis else repr(first_dis[1][:3]))
-    if not proof_ok:
-        run.violation("proof obligation of C17 no longer checks", {"kind": "proof", "operation": "coqc",
-                      "detail": run.extra.get("coq_failure", {})}, found_input=False)
-    elif ndis and not run.violations:
-        c, dis = first_dis
-        run.violation("model/implementation correspondence broken (property not seen to fail)",
-                      {"kind": c.meta["kind"], "operation": "correspondence", "disagreements": dis[:10],
-                       "case": {"name": c.name, "cmds": c.cmds, "meta": c.meta}}, found_input=False)
+    import sys
+    from props import compcheck, gen_dac
+    compcheck.run(run, "C17", [sys.modules[__name__], gen_dac], tier, seed, replay,
+                  rule="VByte: every byte-count boundary + random 32-bit values; LogSequence: every width 1..64 x lengths around word "
+                       "multiples x set/overwrite sequences, vector constructor, save/load; DAC_VLS / DAC_BVLS: structured sequence lists "
+                       "(all length 1, all maximal, last of length 1 / maximal, nLevels = 1, counts and bitmap lengths around 32/64/128/256, "
+                       "logr 1, 31, 32) with the list length the dictionaries pass, level contents / bitmap / index arrays / image bytes "
+                       "compared with the model, every case certified by the extracted checker to lie inside the theorems' input class. "
+                       "Non-trivial = case executes at least one store+load; distinct by (kind, parameters, operations).",
+                  assumptions=["x86-64 shift-count masking where the C++ shifts by the word width (modelled explicitly)",
+                               "the DAC model abstracts the 32-bit get_field/set_field packing of the level arrays and the RG rank of the "
+                               "continuation bitmap by list functions with the same indices (both are compared at layout level through the dumps; RG rank is C19)"])
